@@ -9,15 +9,24 @@ Families present:
   rematch  op `rematch`: patterns x haystacks => plain search, full-haystack wrapper, regex set  (regex crate and
            tackler_rs::regex vs Model/Regex.lean; oracle: python `re` on a translation of the generated AST)
   peel     op `peel`: string => peel_full_haystack_pattern / into_full_haystack_pattern
-  selrun   op `run` twice on the implementation (with the configured selectors / without any) and op `selects`
-           on the model: the rows listed by balance / register / equity with selectors are the rows of the
-           unselected run filtered by the selector predicate
+  selrun   op `run` twice on the implementation (with the configured selectors / without any) and op `run` on the
+           model with the same selector lists (`sel_*` keys: `Tackler.balanceBySel / registerBySel / equityBySel`, the
+           definitions Part B of Props/C11.lean is about) plus the output kind `selects`:
+           * tie: the model's balance rows and deltas, printed register entries, equity transactions and text are
+             those of the implementation's selected run, row by row, figures text-exact (balance, equity) / by value
+             (register, as C03 does); the model's selector predicate applied to the implementation's unselected rows
+             gives the implementation's selected rows;
+           * oracle (implementation only): selected run = unselected run filtered by python `fullmatch`, figures
+             included; deltas of the selected balance = per-commodity sums of the listed own sums (Fractions), one
+             line per commodity that still has a listed row; every equity transaction's balancing posting = minus the
+             sum of its listed postings (absent iff that sum is zero).
 """
 import re
 import warnings
+from fractions import Fraction as F
 
 import common
-from propbase import PropBase
+from propbase import PropBase, model_cfg, cmp_status
 
 warnings.simplefilter("ignore", FutureWarning)
 
@@ -645,11 +654,207 @@ def eff_sel(cfg, report):
     return g if g is not None else []
 
 
+SEL_KEYS = ["sel_balance", "sel_register", "sel_equity", "sel_global"]
+
+
+def parse_equity_txns(text):
+    """-> [(header line, [comment texts], [(acct, amount, comm)])], or None when a line has an unexpected shape"""
+    if text == "":
+        return []
+    if not text.endswith("\n"):
+        return None
+    out, cur = [], None
+    for ln in text[:-1].split("\n"):
+        if cur is None:
+            if ln == "" or ln.startswith(" "):
+                return None
+            cur = (ln, [], [])
+        elif ln == "":
+            out.append(cur)
+            cur = None
+        elif ln.startswith("   ; "):
+            cur[1].append(ln[5:])
+        elif ln.startswith("   ") and len(ln) > 3 and ln[3] != " ":
+            tok = ln.split()
+            if len(tok) == 2:
+                cur[2].append((tok[0], tok[1], ""))
+            elif len(tok) == 3:
+                cur[2].append((tok[0], tok[1], tok[2]))
+            else:
+                return None
+        else:
+            return None
+    return None if cur is not None else out
+
+
+def out_of(ans, rep):
+    return ((ans or {}).get("out") or {}).get(rep) or {}
+
+
+# ---- row-filter half, implementation-only oracles (appended to SelRun.extra_oracles)
+
+def oracle_deltas(case, impl):
+    """the delta lines of the selected balance report are recomputed over the listed rows: one line per commodity
+    that still has a listed row, each the exact sum of the listed rows' own sums"""
+    o = out_of(impl["sel"], "balance")
+    if o.get("r") != "OK":
+        return None
+    pr = common.parse_balance_report(o["v"])
+    rows, deltas = pr if pr is not None else ([], [])
+    try:
+        comms = sorted({r[0] for r in rows})
+        if [d[0] for d in deltas] != comms:
+            return {"sig": "delta-set", "what": "balance with selectors %r: delta lines for commodities %s, listed rows have %s" % (
+                eff_sel(case["cfg"], "balance"), [d[0] for d in deltas], comms)}
+        for c, v in deltas:
+            e = sum((F(r[2]) for r in rows if r[0] == c), F(0))
+            if F(v) != e:
+                return {"sig": "delta-sum", "what": "balance with selectors %r: delta of %r is %s, the listed own sums add to %s" % (
+                    eff_sel(case["cfg"], "balance"), c, v, e)}
+    except (ValueError, ZeroDivisionError):
+        return {"sig": "balance-unparsable", "what": "balance report cannot be parsed: %r" % o["v"][:300]}
+    return None
+
+
+def oracle_equity_balancing(case, impl):
+    """every equity transaction is in one commodity; its balancing posting (the equity account) is minus the exact
+    sum of the listed postings, and is absent exactly when that sum is zero"""
+    o = out_of(impl["sel"], "equity")
+    if o.get("r") != "OK":
+        return None
+    txs = parse_equity_txns(o["v"])
+    if txs is None:
+        return {"sig": "equity-shape", "what": "equity export has an unexpected line shape: %r" % o["v"][:300]}
+    eqa = case["cfg"].get("equity_account", EQUITY_ACCOUNT)
+    try:
+        for hdr, _, posts in txs:
+            listed = [p for p in posts if p[0] != eqa]
+            bal = [p for p in posts if p[0] == eqa]
+            if not listed:
+                return {"sig": "equity-empty-txn", "what": "equity transaction %r without a carried-forward posting" % hdr}
+            if len({p[2] for p in posts}) != 1:
+                return {"sig": "equity-mixed-commodity", "what": "equity transaction %r mixes commodities" % hdr}
+            tot = sum((F(p[1]) for p in listed), F(0))
+            if tot == 0:
+                if bal:
+                    return {"sig": "equity-balancing", "what": "%r: listed postings cancel but there is a balancing posting %s" % (hdr, bal)}
+            elif len(bal) != 1 or posts[-1] != bal[0] or F(bal[0][1]) != -tot:
+                return {"sig": "equity-balancing", "what": "%r: listed postings add to %s, balancing postings %s" % (hdr, tot, bal)}
+    except (ValueError, ZeroDivisionError):
+        return {"sig": "equity-shape", "what": "equity export amount cannot be parsed: %r" % o["v"][:300]}
+    return None
+
+
+# ---- row-filter half, tie (appended to SelRun.extra_compares): None = agree, "skip", or a message
+
+def status_pair(rep, a, b):
+    """common prefix of the three comparisons: ('skip' | message | None = both OK, go on | 'same' = same non-OK status)"""
+    if not b or b.get("r") in (None, "NOMODEL", "BADCASE"):
+        return "driver problem: model output %s = %s" % (rep, b)
+    if b.get("r") == "UNDEF":
+        return "skip"
+    if a.get("r") != b.get("r"):
+        return "%s status with selectors: impl=%s model=%s (%s)" % (rep, a.get("r"), b.get("r"), str(a.get("msg"))[:200])
+    return None if a.get("r") == "OK" else "same"
+
+
+def cmp_balance(case, impl, model):
+    a, b = out_of(impl["sel"], "balance"), out_of(model, "balance")
+    st = status_pair("balance", a, b)
+    if st is not None:
+        return None if st == "same" else st
+    pr = common.parse_balance_report(a["v"])
+    if pr is None:
+        return "balance report without title: %r" % a["v"][:300]
+    rows, deltas = [tuple(r) for r in pr[0]], [tuple(d) for d in pr[1]]
+    mrows, mdeltas = [tuple(r) for r in b["v"]["rows"]], [tuple(d) for d in b["v"]["deltas"]]
+    sel = eff_sel(case["cfg"], "balance")
+    if rows != mrows:
+        for i, (x, y) in enumerate(zip(rows, mrows)):
+            if x != y:
+                return "balance with selectors %r: row %d differs: impl=%s model=%s" % (sel, i, x, y)
+        return "balance with selectors %r: impl lists %d rows, model %d" % (sel, len(rows), len(mrows))
+    if deltas != mdeltas:
+        return "balance with selectors %r: deltas differ: impl=%s model=%s" % (sel, deltas, mdeltas)
+    return None
+
+
+def cmp_register(case, impl, model):
+    a, b = out_of(impl["sel"], "register"), out_of(model, "register")
+    st = status_pair("register", a, b)
+    if st is not None:
+        return None if st == "same" else st
+    es = common.parse_register_report(a["v"])
+    if es is None:
+        return "register report without title: %r" % a["v"][:300]
+    io = []
+    for e in es:
+        if e.get("garbled") is not None or e["ts"] is None or any(r[1] == "?" for r in e["rows"]):
+            return "unreadable register entry: %s" % str(e)[:300]
+        io.append({"ns": common.register_ts_ns(e["ts"]), "code": e["code"], "desc": e["desc"], "uuid": e["uuid"],
+                   "rows": [(x, num(v), num(t), c) for x, v, t, c in e["rows"]]})
+    mo = [{"ns": int(e["ns"]), "code": e["code"], "desc": e["desc"], "uuid": e["uuid"],
+           "rows": [(x, num(v), num(t), c) for x, v, t, c in e["rows"]]} for e in b["v"]]
+    sel = eff_sel(case["cfg"], "register")
+    if len(io) != len(mo):
+        return "register with selectors %r: %d entries printed, model has %d" % (sel, len(io), len(mo))
+    for k, (x, y) in enumerate(zip(io, mo)):
+        if x != y:
+            return "register with selectors %r: entry %d differs: impl=%s model=%s" % (sel, k, str(x)[:400], str(y)[:400])
+    return None
+
+
+def cmp_equity(case, impl, model):
+    a, b = out_of(impl["sel"], "equity"), out_of(model, "equity")
+    st = status_pair("equity", a, b)
+    if st is not None:
+        return None if st == "same" else st
+    got = parse_equity_txns(a["v"])
+    if got is None:
+        return "equity export has an unexpected line shape: %r" % a["v"][:300]
+    want = b["v"]["txns"]
+    sel = eff_sel(case["cfg"], "equity")
+    if len(got) != len(want):
+        return "equity with selectors %r: %d transactions written, model has %d" % (sel, len(got), len(want))
+    for (hdr, comments, posts), w in zip(got, want):
+        if [list(p) for p in posts] != w["posts"]:
+            return "equity with selectors %r: postings of %r differ: impl=%s model=%s" % (sel, hdr, posts, w["posts"])
+        if not hdr.endswith(" '" + w["desc"]) or comments != w["comments"]:
+            return "equity with selectors %r: header/comments differ: impl=%r %s model=%r %s" % (sel, hdr, comments, w["desc"], w["comments"])
+    if b["v"].get("text") is not None and b["v"]["text"] != a["v"]:
+        return "equity with selectors %r: text differs: impl=%r model=%r" % (sel, a["v"][:500], b["v"]["text"][:500])
+    return None
+
+
+class Pats:
+    """pattern texts of one case with their python translations"""
+
+    def __init__(self, rng):
+        self.rng, self.py, self.perl = rng, {}, {}
+
+    def add(self, ast, plain=False):
+        p = r_rust(ast, None if plain else self.rng)
+        self.py[p] = r_py(ast)
+        self.perl[p] = uses_perl(ast)
+        return p
+
+
+def lit_items(s):
+    return [("lit", c) for c in s]
+
+
+def seq1(items):
+    return ("alt", [("seq", items)])
+
+
+DOTSTAR = ("star", ("dot",), False)
+
+
 class SelRun:
     fam = "selrun"
-    # row checks of the oracle / the tie; the row-filter half can append its own (figures, deltas, totals)
-    extra_oracles = []
-    extra_compares = []
+    # row checks of the oracle / the tie beyond "which rows are listed": figures, deltas, balancing postings
+    extra_oracles = [oracle_deltas, oracle_equity_balancing]
+    extra_compares = [cmp_balance, cmp_register, cmp_equity]
 
     def sel_pattern(self, rng, accounts):
         """(kind, ast) of a selector derived from the journal's accounts"""
@@ -681,11 +886,165 @@ class SelRun:
             return "wrapper-text", w
         return "random", g_regex(rng, 1)
 
+    # ---- journals with a known account tree (boundary classes of the row-filter half)
+
+    def tree_txn(self, rng, cfg, legs, comm, closer):
+        h = common.gen_header(rng, cfg, {"p_code": 0.2, "p_desc": 0.3, "p_uuid": 0.0, "p_loc": 0.0, "p_tags": 0.0,
+                                         "p_comments": 0.0})
+        unit = {"comm": comm, "opening": None, "closing": None} if comm else None
+        posts, tot = [], common.D(0)
+        for a, amt in legs:
+            posts.append({"acct": a, "amount": amt, "unit": unit, "comment": None})
+            tot += common.D(amt)
+        if tot == 0:                # the amount-less last posting must not be zero
+            posts[0]["amount"] = common.fmt_dec(common.D(posts[0]["amount"]) + 1)
+        t = dict(h)
+        t["posts"] = posts
+        t["last"] = {"acct": closer, "comment": None}
+        return t
+
+    def tree_journal(self, rng, cfg, by_comm, cancel=()):
+        """by_comm: [(commodity, [accounts], closer)]: every account is posted to at least once in that commodity;
+        cancel: (commodity, account) pairs whose postings must add to zero"""
+        txns = []
+        for comm, accts, closer in by_comm:
+            todo = list(accts)
+            rng.shuffle(todo)
+            while todo:
+                k = rng.choice([1, 2, 3])
+                legs, todo = todo[:k], todo[k:]
+                txns.append(self.tree_txn(rng, cfg, [(a, common.gen_amount_text(rng)) for a in legs], comm, closer))
+            for _ in range(rng.choice([0, 1, 2])):
+                legs = rng.sample(accts, min(len(accts), rng.choice([1, 2])))
+                txns.append(self.tree_txn(rng, cfg, [(a, common.gen_amount_text(rng)) for a in legs], comm, closer))
+        for comm, acct in cancel:
+            tot = sum((common.D(p["amount"]) for t in txns for p in t["posts"]
+                       if p["acct"] == acct and ((p["unit"] or {}).get("comm", "") == comm)), common.D(0))
+            closer = [c for cm, _, c in by_comm if cm == comm][0]
+            if tot != 0:
+                txns.append(self.tree_txn(rng, cfg, [(acct, common.fmt_dec(-tot))], comm, closer))
+        rng.shuffle(txns)
+        return txns
+
+    def tree(self, rng):
+        """a small account tree: parent P with children, a sibling sharing P as a string prefix, another root"""
+        root = rng.choice(common.ROOT_PARTS)
+        par = root + ":" + rng.choice(common.ACCT_PARTS)
+        kids = [par + ":" + x for x in rng.sample(common.ACCT_PARTS, 2)]
+        sib = par + rng.choice(["c", "x", "2"])
+        other = rng.choice([r for r in common.ROOT_PARTS if r != root])
+        okid = other + ":" + rng.choice(common.ACCT_PARTS)
+        return {"root": root, "par": par, "kids": kids, "sib": sib, "other": other, "okid": okid,
+                "all": [par] + kids + [sib, other, okid] + ([root] if rng.random() < 0.5 else [])}
+
+    def boundary(self, rng, kind):
+        """-> (txns, {sel key: [pattern asts]}) of one boundary class"""
+        cfg = {}
+        tr = self.tree(rng)
+        comms = rng.sample(common.COMMS, 2)
+        c0 = rng.choice(["", comms[0]])
+        by_comm = [(c0, tr["all"], "z:closer")]
+        if rng.random() < 0.5:
+            by_comm.append((comms[1], rng.sample(tr["all"], 3), "z:closer"))
+        cancel = []
+        name = rng.choice([a for a in tr["all"] if len(a) > 1])
+        if kind == "prefix":
+            asts = [lits(name[:rng.randrange(1, len(name))])]
+        elif kind == "suffix":
+            asts = [lits(name[rng.randrange(1, len(name)):])]
+        elif kind == "infix":
+            if len(name) < 3:
+                name = tr["kids"][0]
+            i = rng.randrange(1, len(name) - 1)
+            asts = [lits(name[i:rng.randrange(i + 1, len(name))])]
+        elif kind == "own-anchors":
+            it = lit_items(name)
+            asts = [rng.choice([seq1([("bol",)] + it + [("eol",)]), seq1([("bol",)] + it), seq1(it + [("eol",)]),
+                                seq1([("bol",), ("grp", lits(name), False), ("eol",)]),
+                                seq1([("bol",)] + lit_items(name[:-1]) + [("eol",)])])]
+        elif kind == "top-alt":
+            other = rng.choice(tr["all"])
+            asts = [("alt", [("seq", lit_items(rng.choice([name, name[:max(1, len(name) // 2)]]))), ("seq", lit_items(other))])]
+        elif kind == "dotstar":
+            asts = [rng.choice([seq1([DOTSTAR]), seq1(lit_items(tr["par"]) + [DOTSTAR]),
+                                seq1([DOTSTAR, ("lit", ":")] + lit_items(name.split(":")[-1])),
+                                seq1(lit_items(tr["root"]) + [DOTSTAR])])]
+        elif kind == "empty-pattern":
+            asts = [seq1([])] + ([lits(name)] if rng.random() < 0.5 else [])
+        elif kind == "parent-only":         # a parent is listed, its children are not: its tree sum stays the full one
+            asts = [lits(rng.choice([tr["par"], tr["par"], tr["other"]]))]
+        elif kind == "children-only":       # children are listed, the parent is not
+            asts = [rng.choice([seq1(lit_items(tr["par"] + ":") + [DOTSTAR]), lits(tr["kids"][0]),
+                                ("alt", [("seq", lit_items(k)) for k in tr["kids"]])])]
+        elif kind == "hide-commodity":      # every listed row is in one commodity: the other's delta line / transaction goes
+            only = [a + ":h" for a in tr["kids"]] + [tr["sib"]]
+            by_comm = [(c0, [a for a in tr["all"] if a not in only], "z:closer"), (comms[1], only, "y:closer")]
+            pick = rng.choice([only, [a for a in tr["all"] if a not in only]])
+            asts = [lits(a) for a in pick] if rng.random() < 0.5 else [("alt", [("seq", lit_items(a)) for a in pick])]
+        elif kind == "cancel":              # selected rows whose own sums are zero / cancel each other
+            cancel = [(c0, name)]
+            asts = [rng.choice([lits(name), seq1([DOTSTAR]), seq1(lit_items(tr["par"]) + [DOTSTAR])])]
+        else:
+            raise ValueError(kind)
+        txns = self.tree_journal(rng, cfg, by_comm, cancel)
+        return txns, asts
+
+    def assign(self, rng, asts, pats):
+        """put one pattern list into the configuration: report-wide, per report, or both"""
+        lst = [pats.add(a) for a in asts]
+        mode = rng.choice(["global", "each", "mixed"])
+        if mode == "global":
+            return {"sel_global": lst}
+        if mode == "each":
+            return {"sel_balance": lst, "sel_register": list(lst), "sel_equity": list(lst)}
+        out = {"sel_global": lst}
+        rep = rng.choice(REPORTS)
+        out["sel_" + rep] = list(lst)
+        return out
+
+    BOUNDARY = ["prefix", "suffix", "infix", "own-anchors", "top-alt", "dotstar", "empty-pattern", "parent-only",
+                "children-only", "hide-commodity", "cancel"]
+
+    def mk(self, rng, kind, txns, sels, pats, kinds=None):
+        cfg = {"equity_account": EQUITY_ACCOUNT}
+        cfg.update(sels)
+        accounts = sorted({p["acct"] for t in txns for p in t["posts"]} | {t["last"]["acct"] for t in txns if t.get("last")})
+        names = set()
+        for a in accounts:
+            ps = a.split(":")
+            for k in range(1, len(ps) + 1):
+                names.add(":".join(ps[:k]))
+        layout = common.gen_layout(rng)
+        return {"fam": "selrun", "op": "run", "kind": "sel:" + kind, "sel_kinds": sorted(set(kinds or [kind])), "cfg": cfg,
+                "txns": txns, "layout": layout, "text": common.render_journal(txns, layout),
+                "names": sorted(names), "py": pats.py, "perl": pats.perl}
+
     def gen(self, rng, tier):
         out = []
-        n = 260 if tier == "quick" else 8000
+        per = 12 if tier == "quick" else 400
+        for kind in self.BOUNDARY:
+            for _ in range(per):
+                pats = Pats(rng)
+                txns, asts = self.boundary(rng, kind)
+                out.append(self.mk(rng, kind, txns, self.assign(rng, asts, pats), pats))
+        for _ in range(per * 2):            # per-report list vs report-wide list: absent / empty / own
+            pats = Pats(rng)
+            txns, _ = self.boundary(rng, "parent-only")
+            accts = sorted({p["acct"] for t in txns for p in t["posts"]})
+            sels = {"sel_global": [pats.add(lits(rng.choice(accts)))]}
+            shapes = ["absent", "empty", "own"]
+            rng.shuffle(shapes)
+            for rep, shape in zip(REPORTS, shapes):
+                if shape == "empty":
+                    sels["sel_" + rep] = []
+                elif shape == "own":
+                    sels["sel_" + rep] = [pats.add(lits(rng.choice(accts)))]
+            if rng.random() < 0.2:
+                del sels["sel_global"]
+            out.append(self.mk(rng, "report-vs-global", txns, sels, pats))
+        n = 200 if tier == "quick" else 8000
         for _ in range(n):
-            cfg = {"equity_account": EQUITY_ACCOUNT}
+            cfg = {}
             opts = {"p_invalid": 0.0, "p_uuid": 0.0, "p_loc": 0.0, "p_tags": 0.0, "p_comments": 0.0,
                     "p_price": rng.choice([0.0, 0.0, 0.2]), "p_opening": 0.0, "comms": common.COMMS[:rng.randrange(1, 4)],
                     "n_txns": rng.choice([1, 2, 3, 4, 6])}
@@ -696,8 +1055,8 @@ class SelRun:
                 ps = a.split(":")
                 for k in range(1, len(ps) + 1):
                     names.add(":".join(ps[:k]))
-            pats, pys, perl, kinds = {}, {}, {}, []
-            for key in ["sel_balance", "sel_register", "sel_equity", "sel_global"]:
+            pats, kinds, sels = Pats(rng), [], {}
+            for key in SEL_KEYS:
                 r = rng.random()
                 if r < (0.45 if key == "sel_global" else 0.25):
                     continue                      # key absent
@@ -705,19 +1064,14 @@ class SelRun:
                 for _ in range(rng.choice([0, 1, 1, 1, 2, 3]) if r > 0.32 else 0):
                     kind, ast = self.sel_pattern(rng, sorted(names))
                     kinds.append(kind)
-                    p = r_rust(ast, rng)
-                    lst.append(p)
-                    pys[p] = r_py(ast)
-                    perl[p] = uses_perl(ast)
-                cfg[key] = lst
+                    lst.append(pats.add(ast))
+                sels[key] = lst
             if not kinds:
                 kinds = ["no-pattern"]
-            text = common.render_journal(txns, common.gen_layout(rng))
             prio = ["name-part", "top-alt", "own-anchors", "wrapper-text", "empty", "dotstar", "dotstar-leaf", "prefix-dotstar",
                     "exact", "random", "no-pattern"]
             kind = [k for k in prio if k in kinds][0]      # one boundary class per case (the most specific one used)
-            out.append({"fam": "selrun", "op": "run", "kind": "sel:" + kind, "sel_kinds": sorted(set(kinds)), "cfg": cfg, "text": text,
-                        "names": sorted(names), "py": pys, "perl": perl})
+            out.append(self.mk(rng, "rnd-" + kind, txns, sels, pats, kinds))
         return out
 
     def impl_cases(self, case):
@@ -732,9 +1086,12 @@ class SelRun:
 
     def model_case(self, case):
         cfg = case["cfg"]
-        return {"op": "selects", "names": case["names"],
-                "sel": {"balance": cfg.get("sel_balance"), "register": cfg.get("sel_register"),
-                        "equity": cfg.get("sel_equity"), "global": cfg.get("sel_global")}}
+        c = {"op": "run", "cfg": model_cfg(cfg), "txns": case["txns"], "want": REPORTS + ["selects"],
+             "names": case["names"], "equity_account": cfg.get("equity_account", EQUITY_ACCOUNT)}
+        for k in SEL_KEYS:
+            if cfg.get(k) is not None:
+                c[k] = cfg[k]
+        return c
 
     def check_rows(self, case, impl, pred_of, who):
         """pred_of(report) -> predicate or None (= undefined for this report).  Returns (message|None, compared)"""
@@ -765,14 +1122,18 @@ class SelRun:
         return None, compared
 
     def compare(self, case, impl, model):
-        if model.get("r") != "OK":
-            return "driver problem: model=%s %s" % (model.get("r"), model.get("msg", ""))
+        d = cmp_status(impl, model)
+        if d:
+            return d
         if impl.get("r") != "OK":
-            return "skip" if impl.get("r") == "ERR" else "driver problem: impl=%s" % impl.get("r")
+            return None
+        selects = out_of(model, "selects")
+        if selects.get("r") != "OK":
+            return "driver problem: model output selects = %s" % selects
         idx = {n: i for i, n in enumerate(case["names"])}
 
         def pred_of(rep):
-            m = model.get(rep)
+            m = selects["v"].get(rep)
             if m == "UNDEF" or m is None:
                 return None
             return lambda acct: (m[idx[acct]] if acct in idx else None)
@@ -781,8 +1142,11 @@ class SelRun:
             return msg
         for f in self.extra_compares:
             msg = f(case, impl, model)
+            if msg == "skip":
+                continue
             if msg:
                 return msg
+            n += 1
         return None if n else "skip"
 
     def oracle(self, case, impl):
@@ -864,7 +1228,7 @@ class C11(PropBase):
 
     def oracle(self, case, impl):
         r = self.fam(case).oracle(case, impl)
-        if r is None and case.get("kind") in ("top-alt", "literal-part", "sel:name-part"):
+        if r is None and case.get("kind") in ("top-alt", "literal-part", "sel:parent-only", "sel:hide-commodity"):
             self.remember(case)
         return r
 
@@ -872,7 +1236,7 @@ class C11(PropBase):
         return self.fam(case).nontrivial(case, impl)
 
     def sample(self, case):
-        c = {k: v for k, v in case.items() if k not in ("py", "perl", "names")}
+        c = {k: v for k, v in case.items() if k not in ("py", "perl", "names", "txns", "layout")}
         return c
 
     def rule(self):
@@ -882,8 +1246,15 @@ class C11(PropBase):
                 "deleted/replaced/inserted, the match as prefix/suffix/infix, with a leading or trailing newline, "
                 "account-shaped names); boundary classes literal-part (pattern = proper prefix/suffix/infix of an account), "
                 "own-anchors, top-alt, wrapper-text, dotstar, empty, outside-subset, invalid, unbalanced, text-mutation. "
-                "peel: wrapped/half-wrapped/double-wrapped strings. selrun: journals from gen/common.py with selector lists "
-                "(keys present/absent/empty; report-wide fallback) derived from the journal's account names. "
+                "peel: wrapped/half-wrapped/double-wrapped strings. selrun: journals (AST for the model, rendered text for the "
+                "implementation) with selector lists for balance / register / equity and the report-wide list (keys "
+                "present/absent/empty). Boundary classes on a generated account tree (parent with children, a sibling that "
+                "has the parent as a string prefix, a second root, one or two commodities): pattern = proper prefix / suffix / "
+                "infix of an account name; own anchors; top-level alternation; '.*' forms; the empty pattern; parent listed "
+                "without its children and children without the parent (tree sums must stay those of the full tree); "
+                "selectors hiding every row of a commodity (its delta line and equity transaction disappear); selected own "
+                "sums cancelling; per-report list vs report-wide list (absent / empty / own). Plus journals of gen/common.py "
+                "with selectors derived from their account names (rnd-* kinds). "
                 "non-trivial = some haystack is found by plain search but not matched as a whole while another is "
                 "(rematch) / a report lists a non-empty proper subset of the unselected rows (selrun); "
                 "distinct = sha256 of the implementation case")
@@ -893,7 +1264,10 @@ class C11(PropBase):
             "modelled, not verified: the regex crate outside the modelled subset (model answers UNDEF; F16 lives there); "
             "Unicode meaning of \\d \\w \\s (model is ASCII, UNDEF on non-ASCII haystacks); the crate's nest/size limits; "
             "TOML decoding of selector lists",
-            "the python oracle trusts python's `re` on the translated subset (explicit ASCII classes, \\A/\\Z anchors)"]
+            "the python oracle trusts python's `re` on the translated subset (explicit ASCII classes, \\A/\\Z anchors)",
+            "selrun: decimal arithmetic outside the exact domain is UNDEF in the model (C02/C03/C10's domain; the generated "
+            "amounts stay inside it); register entries are compared by value, balance and equity figures text-exact; "
+            "no price conversion, no audit metadata in this family"]
 
     def assumptions(self):
         return ["selector patterns are valid regular expressions on their own (the property's quantifier); a pattern that only "
